@@ -114,3 +114,8 @@ pub const ERR_KINDS: [std::io::ErrorKind; 7] = [std::io::ErrorKind::ConnectionRe
 pub fn set_err_kind(k: std::io::ErrorKind) { ERR_KIND.with(|c| c.set(k)) }
 pub fn transient_error() -> std::io::Error { std::io::Error::new(ERR_KIND.with(|c| c.get()), TRANSIENT) }
 pub fn is_transient(e: &std::io::Error) -> bool { e.get_ref().map(|x| x.to_string() == TRANSIENT).unwrap_or(false) }
+
+thread_local! {
+    /// `set_max_len` value for the AsyncReader of the next schedule run (None = the default).
+    pub static READER_MAX: std::cell::Cell<Option<u32>> = const { std::cell::Cell::new(None) };
+}
